@@ -390,6 +390,32 @@ def judge_io_conversion(ctx, cfg, docs):
     ctx.count('io-error-conversions', len(lines))
     return v
 
+def judge_errmsg(ctx, cfg, n):
+    """custom (data) errors: de::Error::custom / ser::Error::custom -> make_error -> parse_line_col (position recovered from the END of the message text),
+    and Display; Model/ErrMsg.v vs the crate on generated messages (markers, several markers, signs, leading zeros, 2^64 boundaries, non-ASCII, junk)"""
+    rng = ctx.rng
+    heads = [b'', b'x', b'invalid id: x', b'invalid type: string "a at line 1 column 2", expected u8', b'\xc3\xa9 \xe2\x82\xac', b'a at line 3 column 4 b', b' at line ', b'at line 1 column 1']
+    nums = [b'0', b'1', b'7', b'03', b'007', b'18446744073709551615', b'18446744073709551616', b'99999999999999999999999', b'', b'+1', b'-1', b'1 ', b'1x', b'\xd9\xa1']
+    msgs = []
+    for h in heads:
+        for a in nums[:8]:
+            msgs.append(h + b' at line ' + a + b' column ' + rng.choice(nums))
+    for _ in range(n):
+        h = rng.choice(heads) + rng.choice([b'', b' at line 2 column 9', b' column 3', b' at line '])
+        t = rng.choice([b'', b' at line ', b' at  line ', b' at line']) + rng.choice(nums) + rng.choice([b' column ', b' column', b'column ', b' col ']) + rng.choice(nums) + rng.choice([b'', b'', b'', b' ', b'.'])
+        msgs.append(h + t)
+    msgs = [m for m in msgs if gen.is_utf8(m)]
+    lines = ['mk %s' % hx(m) for m in msgs] + ['ms %s' % hx(m) for m in msgs]
+    io, mo = ctx.both(cfg, lines, impl_name='sjh', model_name='sjdriver_errmsg')
+    v = []
+    for line, a, m in zip(lines, io, mo):
+        if a != m:
+            v.append({'what': 'custom-error-position-from-text', 'cfg': cfg, 'input': line.split(' ')[1], 'expected': 'model (Model/ErrMsg.v): ' + m[:200], 'actual': a[:200], 'shrinkable': False, 'case': line[:300]})
+        elif not ctx.quiet and a[:1] not in ('0', 'S'):
+            ctx.distinct_nontrivial += 1
+    ctx.count('custom-error-messages', len(lines))
+    return v
+
 # ================================================================== C09: sources agree (implementation vs implementation)
 def judge_sources(ctx, cfg, inputs, aux=None, ops=('pv', 'pi'), srcs=None, what_prefix=''):
     srcs = srcs or (SRC_QUICK if ctx.tier == 'quick' else SRC_ALL)
@@ -464,6 +490,7 @@ def run_c09(ctx):
         streams = list(stream_inputs(ctx, 4000 if ctx.tier == 'quick' else 40000))
         ctx.violations += judge_stream_sources(ctx, cfg, streams)
         ctx.violations += judge_pos(ctx, cfg, 20000 if ctx.tier == 'quick' else 300000)
+        ctx.violations += judge_errmsg(ctx, cfg, 3000 if ctx.tier == 'quick' else 60000)
     typed_part(ctx, 'run_c09_typed')
 
 # ================================================================== C10: truncation => Eof at the cut
